@@ -14,6 +14,7 @@ def main():
     ensure_tool("t1")
     translate_t1()
     run_translator("t4", [os.path.join(REPO, "main", "bebopc-go", "main.go"), os.path.join(REPO, "main", "bebopfmt", "main.go")], "gen/CliSteps.v", "T4(main/*/main.go)")
+    run_translator("t2", [os.path.join(REPO, "primitive.go"), os.path.join(REPO, "gen_templates.go")], "gen/Tables.v", "T2(primitive.go, gen_templates.go)")
     coq_makefile()
     rc, so, se = sh(["make", "-j16"], cwd=COQ, timeout=3000)
     open(os.path.join(LOGS, "setup-coq.log"), "w").write(so + se)
